@@ -41,6 +41,15 @@ func (e eagrEv) String() string {
 	switch e.K {
 	case "deliver", "dup", "drop", "hold", "reorder":
 		return fmt.Sprintf("%s(%s->n%d %s)", e.K, e.M, e.N, e.D)
+	case "slow":
+		return fmt.Sprintf("slow-payload(%s %s held for %d timeouts everywhere)", e.M, e.D, e.Idx)
+	case "offline":
+		return fmt.Sprintf("offline(n%d for %d delivery sub-phases)", e.N, e.Idx)
+	case "cut":
+		if e.V == "only" {
+			return fmt.Sprintf("cut(votes of period %d step %d reach only n%d)", e.P, e.S, e.N)
+		}
+		return fmt.Sprintf("cut(votes of period %d step %d do not cross {n%d}|rest)", e.P, e.S, e.N)
 	case "byz":
 		return fmt.Sprintf("byz(a%d r%d p%d s%d %s ->n%d)", e.Acct, e.R, e.P, e.S, e.V, e.N)
 	case "timeout", "fast":
@@ -113,6 +122,33 @@ func (s *eagrSys) apply(e eagrEv, out *eagrOut) error {
 		}()
 	}
 	switch e.K {
+	case "slow":
+		fs := append([]eagrFlight(nil), s.flight...)
+		n := 0
+		for i := range fs {
+			if !fs[i].parked && fs[i].m.ID() == e.M && fs[i].m.tag == protocol.ProposalPayloadTag {
+				fs[i].parked, fs[i].ticks = true, int8(e.Idx)
+				n++
+			}
+		}
+		if n == 0 {
+			return fmt.Errorf("%v: no such payload in flight", e)
+		}
+		s.flight = fs
+		s.devs[eagrDevSlow]++
+		s.subStart = false
+		s.fixBarrier()
+		return nil
+	case "offline":
+		s.offNode, s.offLeft = e.N, e.Idx
+		s.devs[eagrDevOff]++
+		s.subStart = false
+		return nil
+	case "cut":
+		s.cut = eagrCut{active: true, only: e.V == "only", node: e.N, period: period(e.P), step: step(e.S)}
+		s.devs[eagrDevCut]++
+		s.subStart = false
+		return nil
 	case "deliver", "dup", "drop", "hold", "reorder":
 		i := s.findFlight(e.N, e.M)
 		if i < 0 {
@@ -128,7 +164,7 @@ func (s *eagrSys) apply(e eagrEv, out *eagrOut) error {
 			return nil
 		case "hold": // held back until after the next tick (delayed past a timeout)
 			s.flight = append([]eagrFlight(nil), s.flight...)
-			s.flight[i].parked = true
+			s.flight[i].parked, s.flight[i].ticks = true, 1
 			s.devs[eagrDevHold]++
 			s.fixBarrier()
 			return nil
@@ -142,6 +178,10 @@ func (s *eagrSys) apply(e eagrEv, out *eagrOut) error {
 			return nil
 		case "deliver":
 			s.removeFlight(i)
+			if s.cut.blocks(f.m, f.src, f.dst) || (s.offLeft > 0 && (f.dst == s.offNode || f.src == s.offNode)) {
+				s.fixBarrier()
+				return nil // lost at the cut / the node is cut off
+			}
 		case "dup":
 			s.devs[eagrDevDup]++
 		}
@@ -218,6 +258,17 @@ func (s *eagrSys) apply(e eagrEv, out *eagrOut) error {
 	case "crash":
 		s.devs[eagrDevCrash]++
 		s.own(e.N).restart(s, out)
+	case "crashlose": // crash-restart in which the node's ledger lost its last block
+		s.devs[eagrDevCrashLose]++
+		n := s.own(e.N)
+		n.rollbackLedger()
+		n.restart(s, out)
+	case "relearn": // catch-up re-delivers the block the ledger lost
+		n := s.own(e.N)
+		if n.lostBlock == nil {
+			return fmt.Errorf("%v: nothing to re-deliver", e)
+		}
+		n.catchup(s, n.lostBlock, out)
 	case "catchup":
 		n := s.nodes[e.N]
 		var ent *eagrEntry
@@ -284,7 +335,11 @@ func (s *eagrSys) unpark() {
 	sort.SliceStable(fs, func(i, j int) bool { return fs[i].seq < fs[j].seq })
 	for i := range fs {
 		if fs[i].parked {
-			fs[i].parked = false
+			if fs[i].ticks > 1 {
+				fs[i].ticks--
+				continue
+			}
+			fs[i].parked, fs[i].ticks = false, 0
 			s.seq++
 			fs[i].seq = s.seq
 		}
@@ -304,6 +359,9 @@ func (s *eagrSys) fixBarrier() {
 	}
 	s.barrier = s.seq
 	s.subStart = true
+	if s.offLeft > 0 {
+		s.offLeft--
+	}
 }
 
 // eagrReplay re-executes an event list on a fresh system of the given configuration.
@@ -447,6 +505,19 @@ func (b *eagrBFS) enabled(s *eagrSys) []eagrEv {
 					}
 				}
 			}
+			if can(eagrDevCrashLose) {
+				for j, n := range s.nodes {
+					if !n.passive && n.led.next >= 2 && n.lostBlock == nil {
+						evs = append(evs, eagrEv{K: "crashlose", N: j})
+					}
+				}
+			}
+			// the lost block may come back at any decision point (not a deviation)
+			for j, n := range s.nodes {
+				if !n.passive && n.lostBlock != nil {
+					evs = append(evs, eagrEv{K: "relearn", N: j})
+				}
+			}
 		}
 		// loopback first (only present when the loopback queue is not modelled as atomic)
 		for j, n := range s.nodes {
@@ -501,6 +572,54 @@ func (b *eagrBFS) enabled(s *eagrSys) []eagrEv {
 				}
 			}
 		}
+		cutEvs := func() {
+			if !s.subStart || s.cut.active || !can(eagrDevCut) {
+				return
+			}
+			// a cut is taken when the first votes of that (period, step) are about to be delivered
+			// (taking it earlier changes nothing)
+			type ps struct {
+				p period
+				s step
+			}
+			seen := map[ps]bool{}
+			var order []ps
+			for _, f := range s.flight {
+				if f.m.tag == protocol.AgreementVoteTag && f.m.vote.R.Step >= soft && f.m.vote.R.Step <= next {
+					k := ps{f.m.vote.R.Period, f.m.vote.R.Step}
+					if !seen[k] {
+						seen[k] = true
+						order = append(order, k)
+					}
+				}
+			}
+			sort.Slice(order, func(i, j int) bool {
+				return order[i].p < order[j].p || (order[i].p == order[j].p && order[i].s < order[j].s)
+			})
+			for _, k := range order {
+				for j, n := range s.nodes {
+					if n.passive {
+						continue
+					}
+					for _, mode := range []string{"only", "iso"} {
+						evs = append(evs, eagrEv{K: "cut", N: j, P: uint64(k.p), S: uint64(k.s), V: mode})
+					}
+				}
+			}
+		}
+		offEvs := func() {
+			if !s.subStart || s.offLeft > 0 || !can(eagrDevOff) {
+				return
+			}
+			for j, n := range s.nodes {
+				if n.passive {
+					continue
+				}
+				for d := 1; d <= 4; d++ {
+					evs = append(evs, eagrEv{K: "offline", N: j, Idx: d})
+				}
+			}
+		}
 		if best >= 0 {
 			f := s.flight[best]
 			evs = append(evs, eagrEv{K: "deliver", N: f.dst, M: f.m.ID(), D: f.m.desc})
@@ -516,8 +635,13 @@ func (b *eagrBFS) enabled(s *eagrSys) []eagrEv {
 			if can(eagrDevDup) {
 				evs = append(evs, eagrEv{K: "dup", N: f.dst, M: f.m.ID(), D: f.m.desc})
 			}
+			if f.m.tag == protocol.ProposalPayloadTag && can(eagrDevSlow) {
+				evs = append(evs, eagrEv{K: "slow", M: f.m.ID(), Idx: 1, D: f.m.desc}, eagrEv{K: "slow", M: f.m.ID(), Idx: 2, D: f.m.desc})
+			}
 			crashEvs()
 			byzEvs()
+			cutEvs()
+			offEvs()
 			return evs
 		}
 		if b.cfg.virtualTime {
@@ -568,6 +692,8 @@ func (b *eagrBFS) enabled(s *eagrSys) []eagrEv {
 		}
 		crashEvs()
 		byzEvs()
+		cutEvs()
+		offEvs()
 		return evs
 	}
 	for j, n := range s.nodes {
@@ -782,6 +908,7 @@ type eagrDiffer struct {
 	events   atomic.Int64 // events executed on both images
 	actsCmp  atomic.Int64 // actions compared
 	actTrips atomic.Int64 // action lists round-tripped
+	second2  atomic.Int64 // second events executed on both images
 	withKids atomic.Int64 // states with period / step sub-routers
 	withEq   atomic.Int64 // states holding an equivocation record
 	withPend atomic.Int64 // states with pending-table entries
@@ -801,6 +928,44 @@ type eagrShadow struct {
 	ref  *eagrNode // the ephemeral-cleared reference image, advanced by the same event
 	refA []action
 	refP string
+}
+
+// eagrPair is the (restored, reference) image pair after one event.
+type eagrPair struct {
+	rp  player
+	rrr rootRouter
+	fp  player
+	frr rootRouter
+	ev  string
+}
+
+// second applies the node's next event to copies of the pair left by the previous event: the
+// restored node must still behave like the uncrashed one two events after the restore.
+func (d *eagrDiffer) second(s *eagrSys, n *eagrNode, e externalEvent) string {
+	pp := n.prevPair
+	d.second2.Add(1)
+	a := &eagrNode{id: n.id, led: n.led, zero: n.zero, hist: n.hist}
+	a.p, a.rr = eagrCopyState(&pp.rp, &pp.rrr)
+	b := &eagrNode{id: n.id, led: n.led, zero: n.zero, hist: n.hist}
+	b.p, b.rr = eagrCopyState(&pp.fp, &pp.frr)
+	aa, ap := a.rawSubmit(s, e)
+	ba, bp := b.rawSubmit(s, e)
+	if ap != "" || bp != "" {
+		if (ap == "") != (bp == "") {
+			return fmt.Sprintf("second event %s after %s: only one image panicked (restored: %q, reference: %q)", eagrEvStr(e), pp.ev, ap, bp)
+		}
+		return ""
+	}
+	ka, kb := eagrActsKey(ba), eagrActsKey(aa)
+	if !reflect.DeepEqual(ka, kb) {
+		return fmt.Sprintf("second event %s after %s: restored node emits %v, uncrashed node emits %v", eagrEvStr(e), pp.ev, kb, ka)
+	}
+	eagrDropOldRounds(&a.rr, &a.p)
+	eagrDropOldRounds(&b.rr, &b.p)
+	if !bytes.Equal(encode(eagrClock{}, a.rr, a.p, nil, false), encode(eagrClock{}, b.rr, b.p, nil, false)) {
+		return fmt.Sprintf("second event %s after %s: successor of the restored node encodes differently from the successor of the uncrashed node (%s)", eagrEvStr(e), pp.ev, eagrStateDiff(&b.p, &b.rr, &a.p, &a.rr))
+	}
+	return ""
 }
 
 func eagrDropOldRounds(rr *rootRouter, p *player) {
@@ -1014,6 +1179,15 @@ func eagrHonest3(name string, proposers, noProp []bool, maxRound basics.Round, m
 	return &eagrBFS{name: name, cfg: cfg, maxStep: next}
 }
 
+// eagrHonest3W is eagrHonest3 with unequal stakes (weights 10/45/45, threshold 70 of 100: the two
+// large nodes form a quorum, the small node with one large node does not).
+func eagrHonest3W(name string, proposers, noProp []bool, maxRound basics.Round, maxPeriod period) *eagrBFS {
+	env := eagrGetEnvStakes([]uint64{10, 45, 45}, 70)
+	cfg := &eagrCfg{env: env, nNodes: 3, atomicVerify: true, atomicLoop: true, flightSet: true,
+		maxRound: maxRound, maxPeriod: maxPeriod, proposers: proposers, noProposalTo: noProp}
+	return &eagrBFS{name: name, cfg: cfg, maxStep: next}
+}
+
 // eagrByz4 builds a configuration of 3 honest nodes + 1 adversary account, threshold 3 of 4.
 func eagrByz4(name string, proposers []bool, maxRound basics.Round, maxPeriod period) *eagrBFS {
 	env := eagrGetEnv(4, 3)
@@ -1032,7 +1206,7 @@ func (b *eagrBFS) lock(budget eagrDevs, maxDevs int, maxStates int64) *eagrBFS {
 func (b *eagrBFS) describe() string {
 	c := b.cfg
 	var sb strings.Builder
-	fmt.Fprintf(&sb, "%d honest nodes, %d accounts of stake 1, threshold %d for every step, rounds<=%d, periods<=%d, timeouts up to step %d", c.nNodes, c.env.n, c.env.threshold, c.maxRound, c.maxPeriod, b.maxStep)
+	fmt.Fprintf(&sb, "%d honest nodes, accounts with stakes %v, threshold %d of %d for every step, rounds<=%d, periods<=%d, timeouts up to step %d", c.nNodes, c.env.stakes, c.env.threshold, c.env.total, c.maxRound, c.maxPeriod, b.maxStep)
 	if c.proposers != nil {
 		fmt.Fprintf(&sb, ", period-0 proposers %v", c.proposers)
 	}
@@ -1077,9 +1251,10 @@ func eagrReplayOf(b *eagrBFS, path func() []eagrEv) any {
 func eagrRunCheck(t *testing.T, c *eagrCheck) {
 	r := ve.NewRun(c.id, c.level)
 	if len(c.configs) > 0 {
-		inits, note := eagrProbeRestorePath(c.configs[0].cfg.env)
+		inits, ahead, note := eagrProbeRestorePath(c.configs[0].cfg.env)
 		for _, b := range c.configs {
 			b.cfg.restoreInitsPersist = inits
+			b.cfg.restoreKeepsAhead = ahead
 		}
 		r.Note("restore-path probe: %s", note)
 	}
@@ -1189,6 +1364,19 @@ func eagrSafetyConfigs(scale int) []*eagrBFS {
 		eagrHonest3("sync-3prop-faults", nil, nil, 1, 1).lock(eagrBudget(2, 1, 1, 1, 0, 1, 1).with(eagrDevReorder, 1), int(1+k), cap),
 		eagrHonest3("sync-3prop-2rounds", nil, nil, 2, 1).lock(eagrBudget(2, 2, 0, 1, 0, 0, 0), int(1+k), cap),
 	}
+	// selective delivery: one slow payload + one vote cut (+ one lost/late message in thorough), equal
+	// and unequal stakes
+	kn := int8(0)
+	if scale == 2 {
+		kn = 1
+	}
+	net := eagrBudget(kn, kn, 0, 0, 0, 0, 0).with(eagrDevSlow, 1).with(eagrDevCut, 1).with(eagrDevOff, 1)
+	cfgs = append(cfgs,
+		eagrHonest3("sync-1prop-netsplit", p1, nil, 1, 1).lock(net, int(2+kn), cap),
+		eagrHonest3W("sync-3prop-w10-45-45-netsplit", nil, nil, 1, 1).lock(net, int(2+kn), cap),
+		eagrHonest3W("sync-3prop-w10-45-45", nil, nil, 1, 1).lock(eagrBudget(1+k, 1+k, 0, 0, 0, 0, 0), int(1+k), cap))
+	// a crash-restart combined with selective delivery (the restarted node runs on to its next timeouts)
+	cfgs = append(cfgs, eagrHonest3("sync-1prop-latepayload-crashcut", p1, cl, 1, 1).lock(eagrBudget(kn, kn, 0, 1, 0, 0, 0).with(eagrDevCut, 1), int(2+kn), cap))
 	if scale == 0 {
 		// equivocation records on one node, cheaply: adversary votes (soft / next) to node 0 only
 		eq := eagrByz4("byz-3of4-equivocate-n0", p1, 1, 1).lock(eagrBudget(0, 0, 0, 0, 2, 0, 0), 2, cap)
